@@ -206,3 +206,15 @@ v("benign-extra-logging", B, (MFD, "            utils.logger.info(f\"{__name__}:
 v("benign-value-local-in-validation", B, (SSG, "            if data[flow_attr] < 0:\n", "            value_here = data[flow_attr]\n            if value_here < 0:\n", 1))
 v("benign-edge-attr-idiom", B, (KFD, "        for u, v, data in self.G.edges(data=True):\n            if (u, v) in self.edges_to_ignore:\n                continue\n            f_u_v = data[self.flow_attr]\n\n            self.solver.add_constraint(\n                self.solver.quicksum(self.solution_weights_superset[i]",
                                   "        for u, v in self.G.edges():\n            if (u, v) in self.edges_to_ignore:\n                continue\n            f_u_v = self.G[u][v][self.flow_attr]\n\n            self.solver.add_constraint(\n                self.solver.quicksum(self.solution_weights_superset[i]", 1))
+# --- reader / translators / flow-safety threshold (round-2 seeds generalised)
+v("benign-reader-renamed-locals", B, (NED, "            for i in range(0, len(path) - 1, 2):\n                # Raise an error if the last two symbols of path[i] are not '.0'\n                if path[i][-2:] != '.0':",
+                                        "            for pos in range(0, len(path), 2):\n                i = pos\n                if path[i][-2:] != '.0':", 1))
+v("c11-reader-step-one", {"C11", "C02", "C14"}, (NED, "            for i in range(0, len(path) - 1, 2):", "            for i in range(0, len(path) - 1, 1):", 1))
+v("c11-reader-stops-early", {"C11", "C02"}, (NED, "            for i in range(0, len(path) - 1, 2):", "            for i in range(0, len(path) - 3, 2):", 1))
+v("c11-reader-dedup-guard", {"C11", "C02", "C14"}, (NED, "                if node not in [self.global_source_id, self.global_sink_id]:\n                    condensed_path.append(node)",
+                                                     "                if node not in [self.global_source_id, self.global_sink_id] and node not in condensed_path:\n                    condensed_path.append(node)", 1))
+v("c11-translator-filters-constraint-nodes", {"C11", "C03", "C10"}, (NED, "                expanded_constraint.append((node + '.0', node + '.1'))",
+                                                                      "                if self.node_flow_attr in self.original_G.nodes[node]:\n                    expanded_constraint.append((node + '.0', node + '.1'))", 1))
+v("c11-translator-filters-starts", {"C11", "C10"}, (NED, "        return [self.get_expanded_edge(node)[0] for node in additional_starts]", "        return [self.get_expanded_edge(node)[0] for node in additional_starts if self.original_G.in_degree(node) > 0]", 1))
+v("c06-flow-safety-threshold-strict", {"C06", "C05"}, ("flowpaths/utils/safetyflowdecomp.py", "if inexact_excess + rightdiff <= 0:", "if inexact_excess + rightdiff < 0:", 1))
+v("benign-flow-safety-threshold-restyled", B, ("flowpaths/utils/safetyflowdecomp.py", "if inexact_excess + rightdiff <= 0:", "if 0 >= rightdiff + inexact_excess:", 1))
